@@ -342,51 +342,50 @@ End Flags.
 (* ------------------------------------------------------------------ *)
 (* what the flags of a context mean: positions in the sibling lists     *)
 (* ------------------------------------------------------------------ *)
-(* [fpath f fl sibs]: [sibs] is a child list of the forest reached from the
-   top-level list by descending through nodes whose "no following sibling"
-   flags are [fl], top-level ancestor first *)
-Inductive fpath (f : forest) : list bool -> list rt -> Prop :=
-| fp_top : fpath f [] f
-| fp_down fl sibs l1 p l2 :
-    fpath f fl sibs -> sibs = l1 ++ p :: l2 -> fpath f (fl ++ [is_nil l2]) (rch p).
+(* [fpath f anc fl sibs]: [sibs] is the child list of the forest reached from
+   the top-level list by descending through the nodes [anc] (nearest first,
+   as Nav.ctx) whose "no following sibling" flags are [fl], top-level
+   ancestor first (the order of get_parent_list()) *)
+Inductive fpath (f : forest) : list rt -> list bool -> list rt -> Prop :=
+| fp_top : fpath f [] [] f
+| fp_down anc fl sibs l1 p l2 :
+    fpath f anc fl sibs -> sibs = l1 ++ p :: l2 -> fpath f (p :: anc) (fl ++ [is_nil l2]) (rch p).
 
 Definition nctx_ok (f : forest) (c : nctx) : Prop :=
-  exists sibs l1 l2, fpath f (n_anc c) sibs /\ sibs = l1 ++ n_node c :: l2 /\ n_last c = is_nil l2.
+  exists anc sibs l1 l2,
+    fpath f anc (n_anc c) sibs /\ sibs = l1 ++ n_node c :: l2 /\ n_last c = is_nil l2.
 
 Lemma ctxs_l_ok_of f (l : list rt) :
-  Forall (fun t => forall anc sibs l1 l2, fpath f anc sibs -> sibs = l1 ++ t :: l2 ->
+  Forall (fun t => forall an anc sibs l1 l2, fpath f an anc sibs -> sibs = l1 ++ t :: l2 ->
                    Forall (nctx_ok f) (ctxs_t anc (is_nil l2) t)) l ->
-  forall anc sibs l1, fpath f anc sibs -> sibs = l1 ++ l -> Forall (nctx_ok f) (ctxs_l anc l).
+  forall an anc sibs l1, fpath f an anc sibs -> sibs = l1 ++ l -> Forall (nctx_ok f) (ctxs_l anc l).
 Proof.
-  induction 1 as [|c l Hc _ IHl]; intros anc sibs l1 P E; [constructor|].
+  induction 1 as [|c l Hc _ IHl]; intros an anc sibs l1 P E; [constructor|].
   rewrite ctxs_l_cons. apply Forall_app. split.
-  - apply (Hc anc sibs l1 l P E).
-  - apply (IHl anc sibs (l1 ++ [c]) P). rewrite <- app_assoc. exact E.
+  - apply (Hc an anc sibs l1 l P E).
+  - apply (IHl an anc sibs (l1 ++ [c]) P). rewrite <- app_assoc. exact E.
 Qed.
 
-Lemma ctxs_t_ok f : forall t anc sibs l1 l2, fpath f anc sibs -> sibs = l1 ++ t :: l2 ->
+Lemma ctxs_t_ok f : forall t an anc sibs l1 l2, fpath f an anc sibs -> sibs = l1 ++ t :: l2 ->
   Forall (nctx_ok f) (ctxs_t anc (is_nil l2) t).
 Proof.
-  induction t as [id i ch IH] using rt_ind'. intros anc sibs l1 l2 P E.
+  induction t as [id i ch IH] using rt_ind'. intros an anc sibs l1 l2 P E.
   rewrite ctxs_t_unfold. constructor.
-  - exists sibs, l1, l2. cbn [n_anc n_last n_node fst snd]. auto.
-  - apply (ctxs_l_ok_of f ch IH (anc ++ [is_nil l2]) ch []); [|reflexivity].
-    apply (fp_down f anc sibs l1 (T id i ch) l2 P E).
+  - exists an, sibs, l1, l2. cbn [n_anc n_last n_node fst snd]. auto.
+  - apply (ctxs_l_ok_of f ch IH (T id i ch :: an) (anc ++ [is_nil l2]) ch []); [|reflexivity].
+    apply (fp_down f an anc sibs l1 (T id i ch) l2 P E).
 Qed.
 
 Theorem ctxs_ok f : Forall (nctx_ok f) (ctxs_l [] f).
 Proof.
-  apply (ctxs_l_ok_of f f) with (sibs := f) (l1 := []); [|constructor|reflexivity].
+  apply (ctxs_l_ok_of f f) with (an := []) (sibs := f) (l1 := []); [|constructor|reflexivity].
   apply Forall_forall. intros t _. apply ctxs_t_ok.
 Qed.
 
-(* a path of flags has the length of the descent; children lists reached are
-   child lists of nodes of the forest *)
-Lemma fpath_in_pre f fl sibs : fpath f fl sibs -> forall t, In t sibs -> In t (pre_f f).
+Lemma fpath_length f anc fl sibs : fpath f anc fl sibs -> length fl = length anc.
 Proof.
-  induction 1 as [|fl sibs l1 p l2 P IH E]; intros t Ht; [apply in_pre_f_top; exact Ht|].
-  apply (pre_f_child_closed f p t); [|exact Ht].
-  apply IH. rewrite E. apply in_or_app. right. left. reflexivity.
+  induction 1 as [|anc fl sibs l1 p l2 P IH E]; [reflexivity|].
+  rewrite app_length. cbn [length]. lia.
 Qed.
 
 (* ------------------------------------------------------------------ *)
